@@ -131,6 +131,7 @@ def run(c, chk):
     unique_titles(c, chk, ex)
     typed_members(c, chk, 'R9.10')
     list_calls_need_a_list(c, chk)
+    success_means_stored(c, chk)
     list_element_width(c, chk)
     # R9.12: "an unknown name fails without effect", "removal by path": the by-name calls address what the resolver finds
     if not isinstance(chk, report.SubCheck):
@@ -378,6 +379,38 @@ def flag_bit_established(p, bit, upto=None):
             if mask == bit and ((k == 0 and not holds_eq)):
                 return True              # (flags & BIT) != 0
     return False
+
+
+def success_means_stored(c, chk, rid='R9.15'):
+    """R9.15: "set(i) replaces element i": a scalar setter that reports success has stored - the by-index routine through the slot
+    accessor (cfg_opt_getval(), which is also where the first explicit store drops the built-in defaults), the by-name routine
+    through the by-index routine.  A shortcut that returns success early ("the slot already holds this value") skips the drop of
+    the defaults and the validation"""
+    chk.rule(rid, 'a scalar setter returns success only on paths that went through the storing routine (the slot accessor, or the by-index setter for a by-name call)')
+    ex = sym.Explorer(c.modules, max_visits=2, mod_sets=c.mod_sets, max_paths=20000)
+    n = 0
+    bad = None
+    for kind in ('int', 'float', 'bool', 'str'):
+        low = 'cfg_opt_setn' + kind
+        for name, through in ((low, ('cfg_opt_getval',)), ('cfg_setn' + kind, (low, 'cfg_opt_getval')), ('cfg_set' + kind, ('cfg_setn' + kind, low, 'cfg_opt_getval'))):
+            f = c.func(name)
+            if f is None:
+                continue
+            for p in ex.explore(f):
+                if p.end != 'ret' or p.retval != sym.C0:
+                    continue
+                n += 1
+                if not any(e.kind == 'call' and e.name in through for e in p.events):
+                    # the result of the storing routine handed on (return cfg_opt_setn...(...)) is a call result, not the constant
+                    bad = bad or (f, p)
+    if bad is not None:
+        f, p = bad
+        chk.fail(rid, 'success-without-store:%s' % f.name, c.where(p.last_ins) if p.last_ins is not None else c.where(f), '%s() returns success on a path that never reaches the storing routine (%s): '
+                 'the option keeps its built-in defaults next to the "set" value, the validation callback is not asked, and the call still reports that it has stored'
+                 % (f.name, fp.cond_text(p, 4)))
+    else:
+        chk.ok(rid, 'scalar setters', '%d paths return the success constant, each after the storing routine' % n)
+    chk.floor('%s success paths of scalar setters' % rid, n, 4)
 
 
 def list_calls_need_a_list(c, chk):
